@@ -132,6 +132,15 @@ Definition in_global (s : st) : bool := Nat.eqb (nscopes s) 1%nat && ctx_eqb (to
 Definition in_function (s : st) : bool := Nat.ltb 1%nat (nscopes s) && ctx_eqb (top_ctx s) CFunction.
 Definition in_gate (s : st) : bool := Nat.ltb 1%nat (nscopes s) && ctx_eqb (top_ctx s) CGate.
 Definition in_block (s : st) : bool := Nat.ltb 1%nat (nscopes s) && ctx_eqb (top_ctx s) CBlock.
+(* the innermost context that is not a BLOCK is GLOBAL: global scope or a block of it *)
+Fixpoint enclosing_global_ctx (cs : list ctx) : bool :=
+  match cs with
+  | [] => true
+  | CBlock :: cs' => enclosing_global_ctx cs'
+  | CGlobal :: _ => true
+  | _ :: _ => false
+  end.
+Definition enclosing_global (s : st) : bool := enclosing_global_ctx (ctxs s).
 Definition curr_scope (s : st) : scope := hd [] (scopes s).
 Definition global_scope (s : st) : scope := last (scopes s) [].
 
